@@ -195,6 +195,8 @@ def check_key(ctx, case):
         short = dbytes.lstrip(b"\x00")
         if short != dbytes and short:
             variants["ssleay-short-octets"] = rder.enc_ecprivkey(short, oid, pb)
+            variants["pkcs8-short-octets"] = rder.enc_pkcs8(rder.enc_ecprivkey(short, oid, pb), oid, version=0)
+            variants["pkcs8-short-octets-bare"] = rder.enc_pkcs8(rder.enc_ecprivkey(short, None, None), oid, version=0)
         # OpenSSL writes an EC PARAMETERS block in front of the key
         params = rder.pem("EC PARAMETERS", rder.enc_oid(oid))
         try:
@@ -232,9 +234,66 @@ def leading_zero_keys(d, count, start):
     return [x for x in out if 1 <= x < d.n]
 
 
+def check_registry(ctx):
+    """the curve registry ecdsa.curves.curves is a public list: a curve appended to it must be found by the
+    DER/PEM loaders from then on and a removed one must not, whatever was looked up before"""
+    import ecdsa.curves as CV
+    from ecdsa.curves import UnknownCurveError
+    d = gen.dom("t251a")
+    custom = gen.make_lib_curve("custom251", d.c, d.G, d.n, 1, (1, 3, 9999, 77))
+    case = {"kind": "registry"}
+    sk = SigningKey.from_secret_exponent(5, curve=custom, hashfunc=hashlib.sha256)
+    named_sk = SigningKey.from_secret_exponent(5, curve=CV.NIST192p)
+    saved = list(CV.curves)
+    try:
+        ctx.ev()
+        # 1. lookups happen first (this is what a cache would remember)
+        VerifyingKey.from_der(named_sk.get_verifying_key().to_der())
+        SigningKey.from_der(named_sk.to_der())
+        try:
+            VerifyingKey.from_der(sk.get_verifying_key().to_der())
+            ctx.fail("registry/unregistered-curve-accepted", case, "")
+        except UnknownCurveError:
+            pass
+        # 2. register, then every DER / PEM route must work
+        CV.curves.append(custom)
+        for what, f in (("vk-der", lambda: VerifyingKey.from_der(sk.get_verifying_key().to_der()).to_string()
+                                    == sk.get_verifying_key().to_string()),
+                        ("vk-pem", lambda: VerifyingKey.from_pem(sk.get_verifying_key().to_pem()).to_string()
+                                    == sk.get_verifying_key().to_string()),
+                        ("sk-der", lambda: SigningKey.from_der(sk.to_der()).to_string() == sk.to_string()),
+                        ("sk-pkcs8", lambda: SigningKey.from_der(sk.to_der(format="pkcs8")).to_string() == sk.to_string()),
+                        ("sk-pem", lambda: SigningKey.from_pem(sk.to_pem()).to_string() == sk.to_string())):
+            ctx.ev()
+            try:
+                if not f():
+                    ctx.fail("registry/appended-curve-roundtrip-differs/%s" % what, case, "")
+            except Exception as e:
+                ctx.fail("registry/appended-curve-not-found/%s/%s" % (what, type(e).__name__), case, repr(e))
+        # 3. unregister: must be unknown again; and a removed named curve must be unknown too
+        CV.curves.remove(custom)
+        CV.curves.remove(CV.SECP112r2)
+        r2 = SigningKey.from_secret_exponent(5, curve=CV.SECP112r2)
+        for what, blob, loader in (("custom", sk.get_verifying_key().to_der(), VerifyingKey.from_der),
+                                   ("secp112r2-vk", r2.get_verifying_key().to_der(), VerifyingKey.from_der),
+                                   ("secp112r2-sk", r2.to_der(), SigningKey.from_der)):
+            ctx.ev()
+            try:
+                loader(blob)
+                ctx.fail("registry/removed-curve-still-accepted/%s" % what, case, "")
+            except UnknownCurveError:
+                pass
+            except Exception as e:
+                ctx.fail("registry/removed-curve-wrong-exception/%s/%s" % (what, type(e).__name__), case, repr(e))
+    finally:
+        CV.curves[:] = saved
+    ctx.nontrivial(("registry",))
+    ctx.sample({"kind": "registry", "note": "lookup, append custom curve, round trips, remove, lookups must fail again"})
+
+
 def units(tier, seed):
     q = tier == "quick"
-    out = []
+    out = [("registry", {})]
     names = sorted(gen.NAMED, key=lambda x: -gen.dom(x).p)
     for nm in names:
         out.append(("named", {"curve": nm, "boundary": 6 if q else 40, "lz": 1 if q else 6, "random": 2 if q else 60}))
@@ -261,6 +320,8 @@ def run_unit(ctx, name, **kw):
             case = {"curve": kw["curve"], "d": dd}
             check_key(ctx, case)
             ctx.sample(case)
+    elif name == "registry":
+        check_registry(ctx)
     elif name == "toys":
         for cname in gen.TOY_PRIME:
             d = gen.dom(cname)
@@ -273,4 +334,7 @@ def run_unit(ctx, name, **kw):
 
 
 def replay(ctx, case):
-    check_key(ctx, case)
+    if case.get("kind") == "registry":
+        check_registry(ctx)
+    else:
+        check_key(ctx, case)
